@@ -37,9 +37,9 @@ func genRun(g *hx.Gen, fam int) string {
 		case 1:
 			f["hk"] = "1"
 		case 2:
-			f["pub"], f["bare"] = "abs", g.Pick([]string{"abs", "key:L1", "key:L2", "bad", "dir"})
+			f["pub"], f["bare"] = "abs", g.Pick([]string{"abs", "key:L1", "key:L2", "bad", "dir", "empty", "ws", "comment"})
 		case 3:
-			f["pub"] = g.Pick([]string{"bad", "dir", "key:L2", "key:L3"})
+			f["pub"] = g.Pick([]string{"bad", "dir", "key:L2", "key:L3", "empty", "ws", "comment", "empty"})
 			f["bare"] = g.Pick([]string{"abs", "key:L1"})
 		case 4:
 			f["ag"] = g.Pick([]string{"okey:L2", "odata", "replay", "garbage", "empty", "fail"})
@@ -70,7 +70,7 @@ func genRun(g *hx.Gen, fam int) string {
 		case 1:
 			f["closeat"] = strconv.Itoa(g.Intn(9))
 		case 2:
-			f["ca"] = g.Pick([]string{"err", "panic", "-"})
+			f["ca"] = g.Pick([]string{"err", "panic", "-", "realdown", "realdead"})
 		case 3:
 			f["failat"] = strconv.Itoa(1 + g.Intn(4))
 			f["ca"] = "certs:3:3"
